@@ -279,6 +279,8 @@ type tcase struct {
 	// capT > 0: the transfer is abandoned capT after the start (it would take far longer at the
 	// configured rate); the envelope is checked on what had been delivered until then
 	capT time.Duration
+	// pp: the listener expects a PROXY protocol header (the limits apply to such a listener too)
+	pp bool
 }
 
 type outcome struct {
@@ -295,6 +297,9 @@ func runCase(run *lib.Run, w *world, tc tcase, idx int, r *lib.RNG) outcome {
 		Cfg: func(cfg *forwarder.HTTPProxyConfig) {
 			cfg.ReadLimit = forwarder.SizeSuffix(tc.r)
 			cfg.WriteLimit = forwarder.SizeSuffix(tc.w)
+			if tc.pp {
+				cfg.ProxyProtocolConfig = forwarder.DefaultProxyProtocolConfig()
+			}
 		},
 		Transport: func(tcfg *forwarder.HTTPTransportConfig) {
 			tcfg.RedirectFunc = func(network, address string) (string, string) {
@@ -347,6 +352,9 @@ func runCase(run *lib.Run, w *world, tc tcase, idx int, r *lib.RNG) outcome {
 			}
 			defer st.Close()
 			c := st.C
+			if tc.pp {
+				fmt.Fprintf(c, "PROXY TCP4 198.51.100.%d 127.0.0.1 %d 3128\r\n", 1+i%200, 40000+i)
+			}
 			c.SetDeadline(time.Now().Add(300 * time.Second))
 			if tc.capT > 0 {
 				c.SetDeadline(t0.Add(tc.capT))
@@ -473,7 +481,7 @@ func runCase(run *lib.Run, w *world, tc tcase, idx int, r *lib.RNG) outcome {
 }
 
 func main() {
-	run := lib.Start("C20", "large transfers (downloads and uploads, plain requests and CONNECT tunnels, 1/2/4/32/64 connections sharing one listener) through listeners with read-limit / write-limit pairs from {0,1,2,4} MiB/s and low limits (2 KiB/s, 24 KiB/s, 128 KiB/s; transfers whose limiter waits last seconds are abandoned after 9 s and judged on what was delivered), each on its own proxy instance, run concurrently; clients (origin/target for uploads) record (time since before the first connect, cumulative bytes) on every read; decisive: cumulative bytes <= burst + rate*t + 64 KiB + 64 KiB per connection at every sample (sound lower bound on duration, load can only make it safer); unlimited directions must finish in under half the time throttling at the other direction's rate would need, judged against a no-limit control; payloads are offset streams compared byte for byte; distinct = (limits, direction, via, connections) signatures")
+	run := lib.Start("C20", "large transfers (downloads and uploads, plain requests and CONNECT tunnels, 1/2/4/32/64 connections sharing one listener, also a listener that expects a PROXY protocol header) through listeners with read-limit / write-limit pairs from {0,1,2,4} MiB/s and low limits (2 KiB/s, 24 KiB/s, 128 KiB/s; transfers whose limiter waits last seconds are abandoned after 9 s and judged on what was delivered), each on its own proxy instance, run concurrently; clients (origin/target for uploads) record (time since before the first connect, cumulative bytes) on every read; decisive: cumulative bytes <= burst + rate*t + 64 KiB + 64 KiB per connection at every sample (sound lower bound on duration, load can only make it safer); unlimited directions must finish in under half the time throttling at the other direction's rate would need, judged against a no-limit control; payloads are offset streams compared byte for byte; distinct = (limits, direction, via, connections) signatures")
 	root := run.RNG()
 	w := &world{}
 	w.origin = lib.MustOrigin("origin", "127.0.0.1:0", nil, w.originHandler)
@@ -500,6 +508,8 @@ func main() {
 		{name: "R4-2conns-dl", r: 4 * MiB, dir: "download", via: "http", conns: 2, size: 10 * MiB, limited: true},
 		{name: "R2-tunnel-dl", r: 2 * MiB, dir: "download", via: "tunnel", conns: 1, size: 12 * MiB, limited: true},
 		{name: "W2-tunnel-ul", w: 2 * MiB, dir: "upload", via: "tunnel", conns: 1, size: 12 * MiB, limited: true},
+		{name: "R2-pp-dl", r: 2 * MiB, dir: "download", via: "http", conns: 1, size: 12 * MiB, limited: true, pp: true},
+		{name: "W2-pp-tunnel-ul", w: 2 * MiB, dir: "upload", via: "tunnel", conns: 2, size: 6 * MiB, limited: true, pp: true},
 		{name: "R1W4-dl", r: 1 * MiB, w: 4 * MiB, dir: "download", via: "http", conns: 1, size: 9 * MiB, limited: true},
 		{name: "R1W4-ul", r: 1 * MiB, w: 4 * MiB, dir: "upload", via: "tunnel", conns: 1, size: 20 * MiB, limited: true},
 		// many connections queueing on one limiter: each write waits longer than a second
@@ -561,7 +571,7 @@ func main() {
 			if !run.Want(i) || (phase == 1) == tc.limited {
 				continue
 			}
-			run.Case(i, fmt.Sprintf("R%d|W%d|%s|%s|x%d", tc.r/MiB, tc.w/MiB, tc.dir, tc.via, tc.conns), tc.name)
+			run.Case(i, fmt.Sprintf("R%d|W%d|%s|%s|x%d|pp=%v", tc.r/MiB, tc.w/MiB, tc.dir, tc.via, tc.conns, tc.pp), tc.name)
 			wg.Add(1)
 			sem <- struct{}{}
 			go func(i int, tc tcase) {
@@ -636,7 +646,7 @@ func main() {
 	}
 	w.origin.Close()
 	w.tun.Close()
-	run.Floor("limited_transfers_checked", 11)
+	run.Floor("limited_transfers_checked", 13)
 	run.Floor("unlimited_transfers_checked", 1)
 	run.Finish()
 }
